@@ -222,6 +222,14 @@ def tableValue (rows : List Row) (mask : Nat) : Option Bool :=
 vars default|result default|vars ordered|result ordered|roundtrip` -/
 def handleC11 (fields : List String) : Verdict :=
   match fields with
+  | ["tables", clsD, hdrD, rowsD, clsO, hdrO, rowsO, freeO] =>
+    let v := handleC11 ["tables", clsD, hdrD, rowsD, clsO, hdrO, rowsO]
+    if v.oracle.isSome || clsO != "ok" || freeO == "-" then v else
+    let no := (hdrO.splitOn ",").filter (· ≠ "") |>.dropLast
+    let want := (freeO.splitOn ",").filter (· ≠ "")
+    if no != want then
+      { v with oracle := some s!"under the ordering file the columns are {no}, but the free variables in the order of the file are {want}" }
+    else v
   | ["tables", clsD, hdrD, rowsD, clsO, hdrO, rowsO] =>
     -- the table printed under an ordering file against the table printed under the default order
     if clsO == "panic" || clsO == "signal" then
